@@ -143,4 +143,43 @@ theorem parse_blank_missing (render : List (Nat × List Nat)) (other : Nat) (ws 
     (h : ∀ c ∈ ws, isWhite c = true) : parseSum render other (.text ws) = .missing := by
   simp only [parseSum, first_field_blank ws h]
 
+theorem parse_publishes (render : List (Nat × List Nat)) (other h : Nat) (lead tok rest : List Nat)
+    (hl : ∀ c ∈ lead, isWhite c = true) (hne : tok ≠ []) (ht : ∀ c ∈ tok, isWhite c = false)
+    (hr : rest = [] ∨ ∃ w r, rest = w :: r ∧ isWhite w = true)
+    (hd : render.find? (fun r => r.2 == tok.map lowerAscii) = some (h, tok.map lowerAscii)) :
+    parseSum render other (.text (lead ++ (tok ++ rest))) = .avail h := by
+  have h1 := first_field_of_layout lead tok rest hl hne ht hr
+  simp only [parseSum, h1, hd]
+
+theorem valid_existing_not_refetched_text (hash : Nat → Nat) (b : Nat) (ds : List DataResp) (ss : List SumResp)
+    (render : List (Nat × List Nat)) (other : Nat) (lead tok rest : List Nat)
+    (hl : ∀ c ∈ lead, isWhite c = true) (hne : tok ≠ []) (ht : ∀ c ∈ tok, isWhite c = false)
+    (hr : rest = [] ∨ ∃ w r, rest = w :: r ∧ isWhite w = true)
+    (hd : render.find? (fun r => r.2 == tok.map lowerAscii) = some (hash b, tok.map lowerAscii)) :
+    let r := download hash (start (some b) ds (parseSum render other (.text (lead ++ (tok ++ rest))) :: ss))
+    r.2 = .skipped ∧ nData r.1.log = 0 ∧ r.1.file = some b := by
+  rw [parse_publishes render other (hash b) lead tok rest hl hne ht hr hd]
+  exact valid_existing_not_refetched hash b ds ss
+
+theorem retry_iff_existing (hash : Nat → Nat) (p b : Nat) (ds : List DataResp) (a0 : SumResp) (ss : List SumResp)
+    (hinv : a0 ≠ .avail (hash p)) :
+    nData (download hash (start (some p) (.body b :: ds) (a0 :: ss))).1.log = 2 ↔
+      ∃ h, ss.head? = some (.avail h) ∧ hash b ≠ h := by
+  rcases a0 with h0 | _ <;>
+  rcases ds with _ | ⟨_ | _, ds⟩ <;>
+  rcases ss with _ | ⟨_ | _, _ | ⟨_ | _, ss⟩⟩ <;>
+  simp [download, start, checkSum, nData, fetch, logData] at hinv ⊢ <;>
+  (repeat' split) <;> simp_all
+
+theorem no_retry_one_request (hash : Nat → Nat) (prior : Option Nat) (b : Nat) (ds : List DataResp) (ss : List SumResp)
+    (hskip : (download hash (start prior (.body b :: ds) ss)).2 ≠ .skipped) :
+    nData (download hash (start prior (.body b :: ds) ss)).1.log = 1 ∨
+    nData (download hash (start prior (.body b :: ds) ss)).1.log = 2 := by
+  revert hskip
+  rcases prior with _ | p <;>
+  rcases ds with _ | ⟨_ | _, ds⟩ <;>
+  rcases ss with _ | ⟨_ | _, _ | ⟨_ | _, _ | ⟨_ | _, ss⟩⟩⟩ <;>
+  simp [download, start, checkSum, nData, fetch, logData] <;>
+  (repeat' split) <;> simp_all
+
 end PhyVerif.C20.Lemmas
